@@ -142,7 +142,9 @@ def handle (op : String) (j : Json) : Except String Json := do
     let peaks ← (← getArr j "peaks").mapM (fun r => do
       match (← asNatList r) with
       | [c, s, e] => pure ({ c := c, s := s, e := e } : C10.Iv)
+      | [c, s, e, f] => pure ({ c := c, s := s, e := e, fwd := f == 1 } : C10.Iv)      -- strand: 1 = '+', 0 = '-' or '.'
       | _ => throw "interval expected")
+    let stranded := kind == "under_stranded"
     let edges : List Int := (List.range (bins + 1)).map (fun (i : Nat) => Int.ofNat i)
     let toI (l : List Nat) : List Int := l.map (fun (n : Nat) => Int.ofNat n)
     let histJ (h : List Nat) : Json := Json.mkObj [("hist", natList h), ("edges", intList edges)]
@@ -153,7 +155,7 @@ def handle (op : String) (j : Json) : Except String Json := do
       | "pileup_data", some p => natListList p
       | "pileup_sum", some _ => (match streamPileupSum sizes chunks with | some n => nat n | none => errJ "genome")
       | "mask_sum", some _ => (match streamMask sizes chunks with | some mk => nat mk.sum | none => errJ "genome")
-      | "under", some _ => (match streamValues sizes chunks [peaks] with | some rows => natListList rows | none => errJ "genome")
+      | "under", some _ | "under_stranded", some _ => (match streamValues stranded sizes chunks [peaks] with | some rows => natListList rows | none => errJ "genome")
       | "pileup_hist", some p =>
         (match histogramReduce (p.map (fun d => (histogram edges (toI d), edges))) with
          | some (h, _) => histJ h
@@ -164,7 +166,7 @@ def handle (op : String) (j : Json) : Except String Json := do
       | "pileup_sum", some d, _ => nat d.sum
       | "mask_sum", _, some mk => nat mk.sum
       | "pileup_hist", some d, _ => histJ (histogram edges (toI d))
-      | "under", some d, _ => (match Base.omap (C10.extractRow sizes d false) peaks with | some rows => natListList rows | none => errJ "invalid")
+      | "under", some d, _ | "under_stranded", some d, _ => (match Base.omap (C10.extractRow sizes d stranded) peaks with | some rows => natListList rows | none => errJ "invalid")
       | _, _, _ => errJ "invalid"
     pure (reply m (some s))
   | "graph_many" =>
